@@ -1049,3 +1049,5 @@ def check(run, prog):
     rule_chained_comments(run, prog)         # R-3.8
     from .snippet_rules import rule_brace_tail
     rule_brace_tail(run, prog)               # R-3.9
+    from .c03_comment_layout import rule_literal_layout
+    rule_literal_layout(run, prog, "R-3.10")
